@@ -157,7 +157,11 @@ def _corruptions():
     swp_pre = lambda t, i: t["ev"][i]["ev"] == "cd.sweep" and t["ev"][i]["pre"] == 1
     return [
         ("start.n", name("cd.start"), plain("n", 1)),
+        ("start.p", name("cd.start"), plain("p", 1)),
+        ("start.t", name("cd.start"), plain("t", 1)),
         ("start.maxit", name("cd.start"), plain("maxit", 1)),
+        ("coord.block", coord, lambda e: e.__setitem__("block", 1 - e["block"])),
+        ("sweep.block", name("cd.sweep"), lambda e: e.__setitem__("block", 1 - e["block"])),
         ("start.icpt", name("cd.start"), lambda e: e.__setitem__("icpt", 1 - e["icpt"])),
         ("start.norm", name("cd.start"), tri("norms", 1000, 0)),
         ("start.pen", name("cd.start"), tri("pen", 1000)),
